@@ -543,7 +543,8 @@ func init() {
 		Rule: "derivation histories x key maps: 2-3 issuers with root key ids from {absent, 0, 1, 2^31, 2^32-1, small random}; tokens are attenuated, sealed, serialized and reloaded in every order; verifiers use WithRootPublicKeys with 0-4 entries (the right key under a wrong id, wrong keys under the right id) and an optional default; the id is sometimes rewritten in transit. Oracle: ledger of ids (every honest descendant reports the id given at creation) and exact-key selection (accepted iff the key registered under the token's id, or the default when it has none, verifies the chain; 'no public key available' when there is none). non-trivial = a key-map selection was checked (distinct by plan hash)",
 		Gen: genC16,
 		Oracles: func(m *vm.VM) []vm.Oracle {
-			return []vm.Oracle{vm.Common{Prop: "C16"}, vm.RootIDOracle{}, vm.RevocationOracle{}, vm.UnmarshalOracle{Prop: "C07"}}
+			// a token that does not come back from its own serialization reports no identifier at all
+			return []vm.Oracle{vm.Common{Prop: "C16"}, vm.RootIDOracle{}, vm.RevocationOracle{}, vm.UnmarshalOracle{Prop: "C16"}}
 		},
 		Nontrivial: func(res *vm.Result) bool { return res.Probes["rootid_selection_checked"] > 0 },
 		Real:       realAll, Simulated: simAll[2:4], Assumptions: assumeAll[:2],
